@@ -82,6 +82,9 @@ def mode_cases(ctx, n):
         cases.append({"a": a, "shape": nc, "omode": rng.choice(["occ", "default", "range", "active", "shape", "rangeshape", "activeshape", "shaperef", "fmtU"]),
                       "lo": lo, "hi": rng.randint(lo, nc + 1), "step": rng.randint(1, 2), "hasact": rng.choice([0, 1]), "act": [a0, rng.randint(a0, nc)]})
         if rng.random() < 0.3:
+            # the explicit tracing entry point Fiber.trace(), with both traces or only the inner one registered
+            cases.append({"a": a, "shape": nc, "omode": "ftrace", "lo": 0, "hi": 0, "step": 1, "hasact": 0, "act": [0, 0], "only_inner": rng.choice([0, 1])})
+        if rng.random() < 0.3:
             # the outer rank as a flattened rank (tuple coordinates, flattened for the traces): the rows below it still name the coordinate being visited
             cases.append({"a": a, "shape": nc, "omode": rng.choice(["occ", "default"]), "lo": 0, "hi": 0, "step": 1, "hasact": 0, "act": [0, 0], "tuplew": rng.choice([2, 3])})
     return cases
